@@ -417,9 +417,20 @@ def _compress_tiles(
             return (src_data_name, 0, y, x)
         return (src_data_name, s, y, x)
 
+    # Layout can be padded past the last row/column of source chunks, tiles that
+    # are all padding get an empty block, compressor pads it out with fill value.
+    nby, nbx = (len(ch) for ch in data.chunks[src_ydim : src_ydim + 2])
+    empty_block = np.zeros(
+        tuple(
+            0 if src_ydim <= i < src_ydim + 2 else n
+            for i, n in enumerate(data.chunksize)
+        ),
+        dtype=data.dtype,
+    )
+
     dsk: Any = {}
     for i, (s, y, x) in enumerate(meta.tidx(sample_idx)):
-        block = block_name(s, y, x)
+        block = block_name(s, y, x) if (y < nby and x < nbx) else empty_block
         dsk[name, i] = (_compress_cog_tile, encoder, block, quote((scale_idx, s, y, x)))
 
     nparts = len(dsk)
